@@ -139,8 +139,11 @@ def run(c):
             shutil.rmtree(os.path.join(sc.root, pkg), ignore_errors=True)
         path = os.path.join(c.tmp, "derive.ndjson")
         with open(path, "w") as fh:
-            for i, e in enumerate(allev):
-                e["tr"] = i + 1
+            tr = 1
+            for e in allev:
+                e["tr"] = tr
+                if e["e"] != "DObs":
+                    tr += 1
                 fh.write(json.dumps(e) + "\n")
         der = [e for e in allev if e["e"] == "Derived"]
         c.cov["evaluations"] += sum(e["iters"] for e in der)
@@ -149,12 +152,22 @@ def run(c):
         c.extra["by_class"] = {k: len([e for e in der if e["cls"] == k]) for k in D.CLASSES}
         c.extra["with_override_candidates"] = len([e for e in der if e["cands"]])
         c.extra["witness_pairs"] = sum(e["witness"] for e in der)
+        c.extra["comparisons_decided_by_spec"] = len([e for e in allev if e["e"] == "DObs"])
+        c.cov["evaluations"] += c.extra["comparisons_decided_by_spec"]
         c.cov["rule"] = ("one case = one derived instance (struct x typeclass) compared with its field-by-field reference on 150 value "
                          "triples; non-trivial = at least two fields (order and cross-field mix-ups are possible)")
         for e in der[:3]:
             c.sample(dict(struct=e["struct"], cls=e["cls"], fields=e["nf"], used=e["used"]))
         for rej in c.validate(path, "TraceDerive", max_rejects=30):
             ev = rej["line"]
+            if ev["e"] == "DObs":
+                structs, order = info.get((ev["pkg"], ev["struct"]), ({}, []))
+                need = closure(structs, [ev["struct"]]) if structs else set()
+                sub = [m for m in order if m in need]
+                c.report("C08:%s:composition" % ev["cls"], dict(structs={m: structs[m] for m in sub}, order=sub),
+                         "derived %s instance of %s: field verdicts eq=%s less=%s, instance says %s - not the composition Derive.tla defines" % (
+                             ev["cls"], ev["struct"], ev.get("feq"), ev.get("fless"), {k: ev[k] for k in ("got", "goteq", "hasheq") if k in ev}))
+                continue
             if ev["e"] == "Generate":
                 what = [k for k in ("gombok", "build", "vet", "driver", "deterministic") if not ev[k]]
                 structs, order = ev.get("structs") or {}, ev.get("order") or []
